@@ -50,7 +50,7 @@ func checkC14(c *km.Ctx) {
 	// who may call the backend interface
 	backend := "iface:(" + km.ModPath + "/lib/pwauth.PasswordAuthenticator).PasswordAuthenticate"
 	for _, fn := range c.P.AllFuncs {
-		if fn.Pkg == nil || fn.Pkg.Pkg.Path() != KMD {
+		if fn.Pkg == nil || !pkgIsKMD(fn.Pkg) {
 			continue
 		}
 		for _, ci := range km.CallsIn(fn) {
@@ -95,7 +95,7 @@ func checkC14(c *km.Ctx) {
 	// ---------- R-C14-2
 	nNew := 0
 	for _, fn := range c.P.AllFuncs {
-		if fn.Pkg == nil || fn.Pkg.Pkg.Path() != KMD {
+		if fn.Pkg == nil || !pkgIsKMD(fn.Pkg) {
 			continue
 		}
 		for _, st := range storesByField(fn, KMD+".RuntimeState")["passwordAttemptGlobalLimiter"] {
@@ -195,7 +195,7 @@ func checkC14(c *km.Ctx) {
 			updHeld[in] = heldVT[in][totpMutex]
 		}
 		if cl, ok := in.(*ssa.Call); ok {
-			if g := km.StaticCallee(cl.Common()); g != nil && g != gf && g.Blocks != nil && g.Pkg != nil && g.Pkg.Pkg.Path() == KMD {
+			if g := km.StaticCallee(cl.Common()); g != nil && g != gf && g.Blocks != nil && g.Pkg != nil && pkgIsKMD(g.Pkg) {
 				hg := ls.Held(g)
 				var mus []*ssa.MapUpdate
 				km.Instrs(g, func(i2 ssa.Instruction) {
@@ -457,7 +457,7 @@ func checkC14(c *km.Ctx) {
 	// validateUserTOTP itself would reset the failure count
 	own := map[*ssa.Function]bool{vt: true}
 	for _, ci := range km.CallsIn(vt) {
-		if g := km.StaticCallee(ci.Common()); g != nil && g.Pkg != nil && g.Pkg.Pkg.Path() == KMD {
+		if g := km.StaticCallee(ci.Common()); g != nil && g.Pkg != nil && pkgIsKMD(g.Pkg) {
 			own[g] = true
 		}
 	}
@@ -491,7 +491,7 @@ func checkC14(c *km.Ctx) {
 		for top.Parent() != nil {
 			top = top.Parent()
 		}
-		if fn.Pkg == nil || fn.Pkg.Pkg.Path() != KMD || own[top] {
+		if fn.Pkg == nil || !pkgIsKMD(fn.Pkg) || own[top] {
 			continue
 		}
 		if _, exempt := initExempt[km.NameOf(top)]; exempt {
@@ -860,7 +860,7 @@ type totpGate struct {
 func findTotpGate(c *km.Ctx, vt *ssa.Function) *totpGate {
 	cands := []*ssa.Function{vt}
 	for _, ci := range km.CallsIn(vt) {
-		if g := km.StaticCallee(ci.Common()); g != nil && g.Blocks != nil && g.Pkg != nil && g.Pkg.Pkg.Path() == KMD {
+		if g := km.StaticCallee(ci.Common()); g != nil && g.Blocks != nil && g.Pkg != nil && pkgIsKMD(g.Pkg) {
 			cands = append(cands, g)
 		}
 	}
